@@ -1,12 +1,14 @@
 ---------------------------- MODULE CondSyntaxMC ----------------------------
 (***************************************************************************)
 (* Bounded exhaustive exploration of the preparation mechanism (C10, M).   *)
-(* Texts: every tree of height <= 2 over two atoms typed in a spread of    *)
+(* Texts: every tree of height <= 2 over two atoms (quick: height <= 1 and *)
+(* nine trees of height 2) typed in a spread of                            *)
 (* styles (all operator spellings, brace kinds, minimal / full bracing),   *)
 (* every comparator spelling, and every base token sequence of length <= 3 *)
 (* over a small alphabet (well- and ill-formed and unjudged ones).         *)
 (***************************************************************************)
 EXTENDS CondSyntax
+CONSTANT Thorough
 
 X == SAt("dport", "=", "80")
 Y == SAt("sip", "!=", "10.0.0.1")
@@ -24,7 +26,9 @@ MCAlpha == <<"(", ")", "!", "&", "=", "<", "sip", "dport", "10.0.0.1", "80">>
 Seqs(n) == UNION {[1..k -> 1..Len(MCAlpha)] : k \in 1..n}
 SeqTexts == {[i \in 1..Len(q) |-> Plain(MCAlpha[q[i]])] : q \in Seqs(3)}
 
-MCTrees == SGrow(SGrow({X, Y}))
+MCTrees == IF Thorough THEN SGrow(SGrow({X, Y}))
+           ELSE SGrow({X, Y}) \cup {SAnd(X, SNot(Y)), SOr(X, SNot(Y)), SNot(SAnd(X, Y)), SNot(SOr(X, Y)), SAnd(SOr(X, Y), X),
+                                   SOr(SAnd(X, Y), Y), SAnd(SNot(X), SNot(Y)), SNot(SNot(X)), SOr(SNot(X), SAnd(Y, X))}
 MCTexts == {Surface(t, st) : t \in MCTrees, st \in MCStyles} \cup CmpTexts \cup SeqTexts
 
 ASSUME SpellThm    == SpellingsUnambiguous
